@@ -4,6 +4,7 @@ import (
 	"bufio"
 	"fmt"
 	"net"
+	"regexp"
 	"strings"
 
 	"github.com/facebookincubator/dns/dnsrocks/dnsserver"
@@ -129,9 +130,10 @@ func c01gen(g *gen, tier string, w *bufio.Writer) {
 		n = 1500
 	}
 	for i := 0; i < n; i++ {
-		o := dataOpts{v6: true, odd: g.chance(1, 3), maxZone: 3, locs: false, maps: false}
+		withLoc := i%2 == 1
+		o := dataOpts{v6: true, odd: g.chance(1, 3), maxZone: 3, locs: withLoc, maps: withLoc}
 		df := g.genDataFile(o)
-		fmt.Fprintln(w, serveOpLine(df, g.genQueries(df, 40, false)))
+		fmt.Fprintln(w, serveOpLine(df, g.genQueries(df, 40, withLoc)))
 	}
 }
 
@@ -187,17 +189,7 @@ func serveRun(line string) (string, string) {
 	return strings.Join(out, "#"), verdict
 }
 
-// stripAddrs removes A/AAAA records (types 1 and 28) from a canonical response, keeping their count
-// per section visible.
-func stripAddrs(r string) string {
-	var sb strings.Builder
-	for _, part := range strings.Split(r, "|") {
-		f := strings.Split(part, "/")
-		if len(f) >= 5 && (f[1] == "1" || f[1] == "28") {
-			sb.WriteString("addr|")
-			continue
-		}
-		sb.WriteString(part + "|")
-	}
-	return sb.String()
-}
+var addrRRre = regexp.MustCompile(`[0-9a-f]+/(1|28)/\d+/\d+/[0-9a-f]+`)
+
+// stripAddrs hides which A/AAAA records were served (random selection), keeping their number.
+func stripAddrs(r string) string { return addrRRre.ReplaceAllString(r, "addr") }
